@@ -646,7 +646,12 @@ def run_idle(rng, drv, profile, tid):
                 cmd(first[0], type="close", mailbox=ABSENT, mood=ABSENT)
             if up(first[0]):
                 do(ev0("Drop", c=first[0]))
-    # --- a long silence with everybody subscribed
+    # --- sometimes the other side leaves without a word: one side alone keeps the channel alive
+    if rng.random() < 0.35:
+        for (c, s_) in order:
+            if s_ != cl[0][1] and up(c):
+                do(ev0("Drop", c=c))
+    # --- a long silence with everybody (who is left) subscribed
     if rng.random() < 0.7:
         exp = drv.to_ticks(drv.m["tap"].CHANNEL_EXPIRATION_TIME)
         per = drv.to_ticks(drv.period_secs)
